@@ -1,6 +1,8 @@
 import Goyang.Lemmas.BridgeBuilt
 import Goyang.Lemmas.ConfigNsDev
 import Goyang.Lemmas.ConfigNsBuilt
+import Goyang.Lemmas.ConfigNsDevLit
+import Goyang.Lemmas.ConfigNsEval
 import Goyang.Props.C12
 import Goyang.Props.C12Conv
 import Goyang.Props.C04
@@ -50,10 +52,38 @@ The namespace an augment of tree `id` stamps with is computed once per `Entry.Au
 root of tree `id`; it is `ownerNs reg id` because that tree exists — C04's invariant "the tree of
 every (sub)module with pending augments exists" is part of the threaded invariant.  `FixChoice`
 needs the path translation `liftPath` to be one-to-one on existing paths (`liftPath_injective`).
-Not proved: the literal `Built`-style class for runs WITH deviations whose path lookup creates an rpc
-input / output (there the class is `BuiltX`, which keeps `implicit` and `congr` as constructors); hypotheses
-of the `processAll_*` theorems cannot be instantiated by `decide` on a module set with an augment or a
-deviation (`String.splitOn` does not reduce in the kernel): the examples use C04's module and explicit trees.
+Runs WITH deviations, literally (section DevLiteral; Lemmas/ConfigNsDevLit.lean): `BuiltD reg` is `Built`
+(conversion / graft / FixChoice) with the three steps the deviation stage takes on an error-free run,
+each with a stated provenance — no `congr`, no `rootErr`:
+  `implicit` — `Entry.Find` creates the input / output an rpc / action lacks because the path of a
+               deviation names it: the created node is placed by the placer of the rpc (so it reports the
+               namespace of the rpc's module), every other location keeps its placer;
+  `retouch`  — the deviated copy of the target is written back (children, stamp, name, errors as before);
+  `remove`   — `deviate not-supported` unlinks the target: the removed locations lose their placer.
+`processAll_built_with_deviations`: the forest of every error-free `processAll` run is `BuiltD`;
+`namespace_placedBy_builtD`: the provenance theorem for it; `processAll_namespace_readOnly_literal`: both
+attributes of every node of such a run by the specification's rule.  How: the forest the deviations are
+applied to is the literal `Built` (`preDev_built_clean`); the deviation stage keeps "`BuiltD`, or some root
+carries an error" (`devStage_keeps_builtD_or_rootError`): storing a tree back unchanged yields the literal
+same class (`builtD_closed_store`: the forest equality, not only the `tree?` answers), every creation is an
+`implicit` step (`created_io_placedBy_rpc`), an unresolvable prefix records an error on a root, and
+such an error stays to the end.  The creation is NOT commuted back to the conversion here, and cannot be:
+`deviate not-supported` on a written rpc input followed by a second deviation whose path names that
+input re-creates it after the removal (namespace `ExCorner`, evaluated by the kernel) — which is why the
+step is a constructor with its own provenance clause.  `builtD_is_builtX`: every `BuiltD` forest is
+`BuiltX reg false`.
+
+Kernel evaluation on module sets with augments and deviations (Lemmas/ConfigNsEval.lean, on top of
+Lemmas/IncludeAugK.lean): `String.splitOn` does not reduce in the kernel; `splitOn_slash_literal` turns
+the split of a literal path into `List.splitOn` over its characters (`decide`), and
+`processAll_errors_KD` / `processAll_forest_KD` rewrite `processAll` into a copy whose `Find` splits the
+character list, which `decide +kernel` evaluates.  Namespace `ExDev`: a module set with an rpc without
+written input, an augment from a second module, a deviation of the augmented leaf and a deviation whose
+path names the rpc's input satisfies the hypotheses of the `processAll_*` theorems (`ExDev.clean`), and
+the namespaces / read-only answers the theorems speak about are evaluated.
+Not proved: nothing of C12's end-to-end statement remains open on the model side; the provenance is
+existentially quantified (fixed by the derivation, not additionally characterised), and the class for
+runs that END WITH ERRORS is `BuiltX reg true` (`final_builtX`), not a literal one.
 -/
 namespace Goyang.Props.C12Bridge
 open Goyang.Model Goyang.Spec.ConfigNs
@@ -316,6 +346,109 @@ theorem processAll_namespace_placedBy (reg : Registry) (opts : Opts) (plug : Plu
 
 end Literal
 
+/-! ### runs WITH deviations: the literal class `BuiltD` -/
+section DevLiteral
+open Goyang.Lemmas.ConfigNsDevLit (BuiltD ioStep)
+open Goyang.Lemmas.ConfigNsDev (BuiltX Removed)
+open Goyang.Spec.Find (addImplicit)
+
+/-- Every `Built` forest is `BuiltD` (Lemmas/ConfigNsDevLit.lean: `Built` + `implicit` + `retouch` +
+`remove`, each with its provenance clause; no `congr`, no `rootErr`), with the same provenance. -/
+theorem built_is_builtD {reg : Registry} {f : Forest} {prov : Loc → Option Nat} (h : Built reg f prov) :
+    BuiltD reg f prov := Goyang.Lemmas.ConfigNsDevLit.Built.toBuiltD h
+
+/-- Every `BuiltD` forest is `BuiltX reg false` (the class of `processAll_provenance`; its provenance
+does not move the placer of a created input / output, hence "for some provenance"). -/
+theorem builtD_is_builtX {reg : Registry} {f : Forest} {prov : Loc → Option Nat} (h : BuiltD reg f prov) :
+    ∃ prov0, BuiltX reg false f prov0 := h.toBuiltX
+
+/-- **Namespace attribution** (C12's `namespace_placedBy`) **for `BuiltD`**: in a forest built by
+conversion, grafts, `FixChoice`, creation of absent rpc inputs / outputs, write-back of deviated nodes and
+removal of not-supported ones, a location placed by the text of (sub)module `m` — a created input / output
+counts as placed by the placer of its rpc — and not removed reports the namespace of the module `m`
+belongs to. -/
+theorem namespace_placedBy_builtD {reg : Registry} {f : Forest} {prov : Loc → Option Nat} (hb : BuiltD reg f prov)
+    (loc : Loc) (m : Nat) (root : Entry) (hroot : f.tree? loc.1 = some root) (hp : prov loc = some m) :
+    namespaceAt reg f loc = ownerNs reg m :=
+  Goyang.Lemmas.ConfigNsDevLit.builtD_namespace hb loc m (by rw [hroot]; rfl) hp
+
+/-- `Find` stores the tree it walked back into the forest even when nothing changed: `BuiltD` is closed
+under that — the literal forest, with the same provenance (this replaces the `congr` step of `BuiltX`). -/
+theorem builtD_closed_store {reg : Registry} {f : Forest} {prov : Loc → Option Nat} (hb : BuiltD reg f prov)
+    (t : Nat) (root : Entry) (ht : f.tree? t = some root) : BuiltD reg (f.setTree t root) prov :=
+  Goyang.Lemmas.ConfigNsDevLit.builtD_store hb t root ht
+
+/-- **The implicitly created input / output is placed by the module of its rpc.**  When `Find` creates
+the absent input (`b = true`) or output of the rpc / action `e` at path `p` of tree `t`, the forest stays
+`BuiltD` with the provenance that differs only at the created location `p ++ [input]`, where it is the
+placer `m` of the rpc; and the created node reports the namespace of the module `m` belongs to. -/
+theorem created_io_placedBy_rpc {reg : Registry} {f : Forest} {prov : Loc → Option Nat} (hb : BuiltD reg f prov)
+    (t : Nat) (root e : Entry) (p : Path) (b : Bool) (ht : f.tree? t = some root) (hg : root.getAt p = some e)
+    (hr : e.d.isRpc = true) (he : if b = true then e.inp = [] else e.out = []) (m : Nat) (hp : prov (t, p) = some m) :
+    ∃ prov', BuiltD reg (f.setTree t (root.updateAt p (addImplicit b))) prov' ∧
+      prov' (t, p ++ [ioStep b]) = some m ∧ (∀ loc, loc ≠ (t, p ++ [ioStep b]) → prov' loc = prov loc) ∧
+      namespaceAt reg (f.setTree t (root.updateAt p (addImplicit b))) (t, p ++ [ioStep b]) = ownerNs reg m := by
+  classical
+  have h1 : (fun loc => if loc = (t, p ++ [ioStep b]) then prov (t, p) else prov loc) (t, p ++ [ioStep b]) = prov (t, p) := by
+    simp only [if_true]
+  have hb' : BuiltD reg (f.setTree t (root.updateAt p (addImplicit b)))
+      (fun loc => if loc = (t, p ++ [ioStep b]) then prov (t, p) else prov loc) :=
+    BuiltD.implicit b hb ht hg hr he h1 (fun loc h => by simp only [h, if_false])
+  refine ⟨_, hb', h1.trans hp, fun loc h => by simp only [h, if_false], ?_⟩
+  exact Goyang.Lemmas.ConfigNsDevLit.builtD_namespace hb' (t, p ++ [ioStep b]) m
+    (by simp only; rw [Goyang.Lemmas.ConfigNs.tree?_setTree, if_pos rfl, ht]; rfl) (h1.trans hp)
+
+/-- **`Find` keeps "`BuiltD`, or some root carries an error"**, whatever path it is asked: the creations
+are `implicit` steps, the store is absorbed, an unresolvable prefix records an error on a root. -/
+theorem find_keeps_builtD_or_rootError (reg : Registry) (f : Forest) (start : Loc) (ctx : Nat) (name : String)
+    (h : (∃ prov, BuiltD reg f prov) ∨ ∃ t root, f.tree? t = some root ∧ root.d.errors ≠ []) :
+    (∃ prov, BuiltD reg (find reg f start ctx name).2 prov) ∨
+      ∃ t root, (find reg f start ctx name).2.tree? t = some root ∧ root.d.errors ≠ [] :=
+  Goyang.Lemmas.ConfigNsDevLit.bdv_find h start ctx name
+
+/-- **The deviation stage keeps "`BuiltD`, or some root carries an error"** — every registry, option
+set, plug and start forest; deviations that apply, fail, or remove nodes included. -/
+theorem devStage_keeps_builtD_or_rootError (reg : Registry) (opts : Opts) (plug : Plug) (f0 : Forest)
+    (h : (∃ prov, BuiltD reg f0 prov) ∨ ∃ t root, f0.tree? t = some root ∧ root.d.errors ≠ []) :
+    (∃ prov, BuiltD reg (Lemmas.Tree.devStage reg opts plug f0).1 prov) ∨
+      ∃ t root, (Lemmas.Tree.devStage reg opts plug f0).1.tree? t = some root ∧ root.d.errors ≠ [] :=
+  Goyang.Lemmas.ConfigNsDevLit.devStage_bdv reg opts plug f0 h
+
+/-- **C12's end-to-end statement for runs WITH deviations, literally**: the forest of an error-free
+`processAll` run is `BuiltD` — conversion (`init`), one `graft` per applied augment, `FixChoice` (`fix`),
+and in the deviation stage: creation of an rpc input / output the path of a deviation names (`implicit`:
+placed by the rpc's placer), write-back of each deviated node (`retouch`: placer kept), removal by
+`deviate not-supported` (`remove`: no placer).  No error-recording step and no `congr` step. -/
+theorem processAll_built_with_deviations (reg : Registry) (opts : Opts) (plug : Plug)
+    (hclean : (processAll reg opts plug).errors = []) :
+    ∃ prov, BuiltD reg (processAll reg opts plug).forest prov :=
+  Goyang.Lemmas.ConfigNsDevLit.processAll_builtD_clean reg opts plug hclean
+
+/-- **End to end, on `processAll`, with the literal class.**  For an error-free run — deviations
+included — there is a provenance `prov` of the returned forest, derived by `BuiltD` (initial nodes placed
+by their tree's module, grafted nodes by the module of the augment, created rpc inputs / outputs by the
+placer of the rpc, library-inserted cases and removed locations by nobody), such that for every tree and
+every path of it: a location with a placer `m` reports the namespace of the module `m` belongs to, and
+`ReadOnly()` is the specification's rule on the path of the returned tree. -/
+theorem processAll_namespace_readOnly_literal (reg : Registry) (opts : Opts) (plug : Plug)
+    (hclean : (processAll reg opts plug).errors = []) :
+    ∃ prov, BuiltD reg (processAll reg opts plug).forest prov ∧
+      ∀ (loc : Loc) (root : Entry), (processAll reg opts plug).forest.tree? loc.1 = some root →
+        (∀ m, prov loc = some m → namespaceAt reg (processAll reg opts plug).forest loc = ownerNs reg m) ∧
+        root.readOnlyAt loc.2 = readOnlyExact (configsAlong root loc.2) ∧
+        (NoConfigTrueBelowOutput (configsAlong root loc.2) → root.readOnlyAt loc.2 = readOnly (configsAlong root loc.2)) := by
+  obtain ⟨prov, hb⟩ := processAll_built_with_deviations reg opts plug hclean
+  exact ⟨prov, hb, fun loc root hroot =>
+    ⟨fun m hp => namespace_placedBy_builtD hb loc m root hroot hp, C12.readOnly_exact root loc.2,
+      fun h => C12.readOnly_spec root loc.2 h⟩⟩
+
+/-- The split of a literal path at `/` is the split of its character list, which `decide` evaluates
+(`String.splitOn` itself does not reduce in the kernel). -/
+theorem splitOn_slash_literal (s : String) : s.splitOn "/" = (s.toList.splitOn '/').map String.ofList :=
+  Goyang.Lemmas.ConfigNsEval.splitOn_slash s
+
+end DevLiteral
+
 /-! ### non-vacuity -/
 section Examples
 open Goyang.Props.C04.Ex
@@ -439,6 +572,116 @@ example :
   intro x x' root
   exact ⟨deviate_readOnly_target root [.child "c", .child "x"] x x' (by rfl) rfl (by decide) (by decide), by decide⟩
 
+/-- A literal path split by evaluation: `splitOn_slash_literal` then `decide`. -/
+example : "/a:c/b:x".splitOn "/" = ["", "a:c", "b:x"] ∧ "/a:r/a:input".splitOn "/" = ["", "a:r", "a:input"] := by
+  rw [splitOn_slash_literal, splitOn_slash_literal]; decide
+
+/-- `BuiltD` on a concrete forest: an rpc without written input; the tree is stored back unchanged
+(`builtD_closed_store`), then `Find` creates the input (`created_io_placedBy_rpc`): the forest is `BuiltD`,
+the created input is placed by module 0 — the placer of the rpc — and reports its namespace. -/
+example :
+    let rpc : Entry := .mk { name := "r", isRpc := true } [] [] []
+    let root : Entry := .mk { name := "m" } [rpc] [] []
+    let f : Forest := { trees := [(0, root)] }
+    let f' : Forest := (f.setTree 0 root).setTree 0 (root.updateAt [.child "r"] (Goyang.Spec.Find.addImplicit true))
+    ∀ reg : Registry, ∃ prov', Goyang.Lemmas.ConfigNsDevLit.BuiltD reg f' prov' ∧
+      prov' (0, [.child "r", .input]) = some 0 ∧ namespaceAt reg f' (0, [.child "r", .input]) = ownerNs reg 0 := by
+  intro rpc root f f' reg
+  have h0 : Goyang.Lemmas.ConfigNsDevLit.BuiltD reg f (fun loc => some loc.1) :=
+    Goyang.Lemmas.ConfigNsDevLit.BuiltD.init (by
+      intro id t h
+      have : t = root := by
+        simp only [f, Forest.tree?, List.find?] at h
+        split at h
+        · simpa using h.symm
+        · cases h
+      subst this; decide)
+  have h1 := builtD_closed_store h0 0 root (by rfl)
+  obtain ⟨prov', hb, hp, _, hns⟩ := created_io_placedBy_rpc h1 0 root rpc [.child "r"] true (by rfl) (by rfl) rfl
+    (by rw [if_pos rfl]; rfl) 0 rfl
+  exact ⟨prov', hb, hp, hns⟩
+
+
 end Examples
+
+/-! ### non-vacuity on `processAll`, evaluated by the kernel: a module set with an augment and deviations -/
+namespace ExDev
+open Goyang.Lemmas.Tree Goyang.Lemmas.IncludeAugK Goyang.Lemmas.ConfigNsEval
+
+def st (file kw arg : String) (l c : Nat) (subs : List Stmt) : Stmt := .mk kw true arg file l c subs
+def plug : Plug := Goyang.Props.C04.Ex.plug
+/-- `module a`: a container `c` with a leaf `k`, an rpc `r` with neither input nor output written. -/
+def aS : Stmt := st "a" "module" "a" 1 1 [st "a" "namespace" "urn:a" 2 3 [], st "a" "prefix" "a" 3 3 [],
+  st "a" "container" "c" 4 3 [st "a" "leaf" "k" 5 5 [st "a" "type" "string" 5 12 []]],
+  st "a" "rpc" "r" 6 3 []]
+/-- `module b`: augments `/a:c` with a leaf `x`, deviates that leaf (`config false`), and has a deviation
+whose path names the unwritten input of `a`'s rpc (`Find` creates it). -/
+def bS : Stmt := st "b" "module" "b" 1 1 [st "b" "namespace" "urn:b" 2 3 [], st "b" "prefix" "b" 3 3 [],
+  st "b" "import" "a" 4 3 [st "b" "prefix" "a" 4 12 []],
+  st "b" "augment" "/a:c" 5 3 [st "b" "leaf" "x" 6 5 [st "b" "type" "string" 6 12 []]],
+  st "b" "deviation" "/a:c/b:x" 7 3 [st "b" "deviate" "add" 8 5 [st "b" "config" "false" 8 18 []]],
+  st "b" "deviation" "/a:r/a:input" 9 3 [st "b" "deviate" "add" 10 5 []]]
+def R : Registry := (Registry.loadAll [aS, bS]).1
+
+/-- The hypothesis of `processAll_built_with_deviations`, `processAll_namespace_readOnly_literal`,
+`processAll_provenance`, `processAll_namespace_readOnly` and `preDev_built_clean` holds of this set
+(augment and deviations applied; evaluated by the kernel through `processAll_errors_KD`). -/
+theorem clean : (processAll R {} plug).errors = [] := by
+  rw [processAll_errors_KD R {} plug (by decide +kernel) (by decide +kernel)]; decide +kernel
+
+theorem forestK : (processAll R {} plug).forest = (devStageK R {} plug (preDevK R {} plug).forest).1 :=
+  processAll_forest_KD R {} plug (by decide +kernel) (by decide +kernel)
+
+/-- So its forest is `BuiltD`, with the conclusions of `processAll_namespace_readOnly_literal`. -/
+example : ∃ prov, Goyang.Lemmas.ConfigNsDevLit.BuiltD R (processAll R {} plug).forest prov :=
+  processAll_built_with_deviations R {} plug clean
+
+/-- What the theorems speak about, evaluated independently of the proofs: the grafted leaf `/c/x` reports
+`b`'s namespace and — after the deviation — is read-only; `a`'s own leaf `/c/k` reports `a`'s and is
+not; the input of `r`, created by the lookup of the second deviation, exists and reports `a`'s namespace
+(the module of the rpc). -/
+theorem evaluated :
+    namespaceAt R (processAll R {} plug).forest (0, [.child "c", .child "x"]) = "urn:b" ∧
+    namespaceAt R (processAll R {} plug).forest (0, [.child "c", .child "k"]) = "urn:a" ∧
+    namespaceAt R (processAll R {} plug).forest (0, [.child "r", .input]) = "urn:a" ∧
+    (((processAll R {} plug).forest.tree? 0).bind (·.getAt [.child "r", .input])).isSome = true ∧
+    (((processAll R {} plug).forest.tree? 0).map (·.readOnlyAt [.child "c", .child "x"])) = some true ∧
+    (((processAll R {} plug).forest.tree? 0).map (·.readOnlyAt [.child "c", .child "k"])) = some false := by
+  rw [forestK]; decide +kernel
+end ExDev
+
+/-! ### the corner that makes `implicit` a constructor: removal of a written rpc input, then a lookup through it -/
+namespace ExCorner
+open Goyang.Lemmas.Tree Goyang.Lemmas.IncludeAugK Goyang.Lemmas.ConfigNsEval
+open ExDev (st plug)
+
+/-- `module a`: an rpc `r` with a written input holding a leaf `q`. -/
+def aS : Stmt := st "a" "module" "a" 1 1 [st "a" "namespace" "urn:a" 2 3 [], st "a" "prefix" "a" 3 3 [],
+  st "a" "rpc" "r" 6 3 [st "a" "input" "" 7 5 [st "a" "leaf" "q" 8 7 [st "a" "type" "string" 8 14 []]]]]
+/-- `module b`: `deviate not-supported` on that input, then a second deviation with the same path. -/
+def bS : Stmt := st "b" "module" "b" 1 1 [st "b" "namespace" "urn:b" 2 3 [], st "b" "prefix" "b" 3 3 [],
+  st "b" "import" "a" 4 3 [st "b" "prefix" "a" 4 12 []],
+  st "b" "deviation" "/a:r/a:input" 7 3 [st "b" "deviate" "not-supported" 8 5 []],
+  st "b" "deviation" "/a:r/a:input" 9 3 [st "b" "deviate" "add" 10 5 []]]
+def R : Registry := (Registry.loadAll [aS, bS]).1
+
+theorem clean : (processAll R {} plug).errors = [] := by
+  rw [processAll_errors_KD R {} plug (by decide +kernel) (by decide +kernel)]; decide +kernel
+
+theorem forestK : (processAll R {} plug).forest = (devStageK R {} plug (preDevK R {} plug).forest).1 :=
+  processAll_forest_KD R {} plug (by decide +kernel) (by decide +kernel)
+
+/-- The run is error-free; the written input was removed (its leaf `q` is gone) and an empty input was
+created after the removal by the lookup of the second deviation; it reports the namespace of the rpc's
+module.  No forest built without a creation step AFTER the removal has this shape. -/
+theorem recreated :
+    (((processAll R {} plug).forest.tree? 0).bind (·.getAt [.child "r", .input])).isSome = true ∧
+    (((processAll R {} plug).forest.tree? 0).bind (·.getAt [.child "r", .input, .child "q"])).isSome = false ∧
+    namespaceAt R (processAll R {} plug).forest (0, [.child "r", .input]) = "urn:a" := by
+  rw [forestK]; decide +kernel
+
+example : ∃ prov, Goyang.Lemmas.ConfigNsDevLit.BuiltD R (processAll R {} plug).forest prov :=
+  processAll_built_with_deviations R {} plug clean
+end ExCorner
 
 end Goyang.Props.C12Bridge
